@@ -60,8 +60,9 @@ if [ "$TIER" = "thorough" ] && [ "$execs" = "0" ]; then
 fi
 newu=$(cat "$WORK"/log.* | grep -a "stat::new_units_added" | awk '{s+=$2} END {print s+0}')
 cov=$(cat "$WORK"/log.* | grep -a -o "cov: [0-9]*" | awk '{if ($2>m) m=$2} END {print m+0}')
+corp=$(cat "$WORK"/log.* | grep -a -o "corp: [0-9]*" | awk '{if ($2>m) m=$2} END {print m+0}')
 crash=$(ls "$WORK/artifacts" 2>/dev/null | grep -E "^(crash|leak)-" | head -1)
-other=$(ls "$WORK/artifacts" 2>/dev/null | grep -E "^(oom|timeout|slow-unit)-" | head -1)
+other=$(ls "$WORK/artifacts" 2>/dev/null | grep -E "^(oom|timeout)-" | head -1)
 msg=$(cat "$WORK"/log.* | grep -a -m1 -E "FUZZ-VIOLATION|ERROR: AddressSanitizer|unsafe precondition|panicked at" | cut -c1-400 | sed 's/"/'"'"'/g')
 verdict=0
 replay=""
@@ -80,7 +81,7 @@ fi
 python3 - "$REPORT" <<PY
 import json,sys
 json.dump({"target":"$TARGET","build":"$MODE","engine":"libFuzzer (coverage feedback from the shim crates and mlc only), AddressSanitizer on the code under test, " + ("debug assertions + overflow checks on" if "$MODE"=="asan" else "debug assertions off (wrapping arithmetic, as shipped)"),
- "tier":"$TIER","processes":$NPROC,"runs_per_process":($RUNS if "$TIER"=="quick" else None),"executions":int("$execs" or 0),"new_units_added":int("$newu" or 0),"max_coverage_counters":int("$cov" or 0),
+ "tier":"$TIER","processes":$NPROC,"runs_per_process":($RUNS if "$TIER"=="quick" else None),"executions":int("$execs" or 0),"new_units_added":int("$newu" or 0),"max_coverage_counters":int("$cov" or 0),"max_corpus_units":int("$corp" or 0),
  "seed_corpus_files":len(__import__("os").listdir("$HERE/seeds/$TARGET")) if __import__("os").path.isdir("$HERE/seeds/$TARGET") else 0,
  "wall_s":round($end-$start,1),"crash_artifact":"$replay" or None,"first_message":"""$msg""" or None,"verdict":$verdict}, open(sys.argv[1],"w"))
 PY
